@@ -279,6 +279,63 @@ fn check_ssi(run: &Run, s: &Sym) {
     }
 }
 
+/// Equivariant pairs of Reidemeister-I kinks: a kink on an edge e and a kink on tau(e) (all 4 x 4
+/// sign / over-under variants; kept iff the result is again a symmetric diagram for the loader's
+/// numbering from some starting edge, which `make_sym` decides together with the reference), listed
+/// in several crossing orders.  Such diagrams have off-axis crossings that are separated from the
+/// other off-axis crossings by on-axis ones (more than one off-axis "cluster" per side), which no
+/// table entry and no diagram with <= 4 crossings has (seed `C19-off-axis-clusters-by-count`).
+fn kinked_inputs(s: &Sym, out: &mut Vec<Sym>, seen: &mut std::collections::BTreeSet<Vec<[usize; 4]>>) {
+    let d = &s.d;
+    let outs = d.out_darts();
+    for e in 0..2 * d.n {
+        let te = s.tau[e];
+        if te <= e {
+            continue; // one representative per pair; edges fixed by tau cross the axis
+        }
+        for v in 0..16u32 {
+            let d1 = d.r1(outs[e], v & 1 != 0, v & 2 != 0);
+            // the darts of the old crossings keep their indices, so outs[te] still leaves along tau(e)
+            let d2 = d1.r1(outs[te], v & 4 != 0, v & 8 != 0);
+            let n = d2.n;
+            let (k1, k2) = (n - 2, n - 1);
+            let rest: Vec<usize> = (0..n - 2).collect();
+            let orders: Vec<(&str, Vec<usize>)> = vec![
+                ("kinks-last", (0..n).collect()),
+                ("kinks-first", [vec![k1, k2], rest.clone()].concat()),
+                ("kink-first-kink-last", [vec![k1], rest.clone(), vec![k2]].concat()),
+                ("kink-second", [vec![rest[0], k1], rest[1..].to_vec(), vec![k2]].concat()),
+                ("reversed", (0..n).rev().collect()),
+            ];
+            for (oname, perm) in orders {
+                let dd = d2.reorder(&perm);
+                let comps = dd.components();
+                if comps.len() != 1 {
+                    continue;
+                }
+                let cyc = &comps[0];
+                let n2 = cyc.len();
+                for start in 0..n2 {
+                    let mut lab = vec![0usize; n2];
+                    for k in 0..n2 {
+                        lab[cyc[(start + k) % n2]] = k + 1;
+                    }
+                    let code = dd.pd_with(&|x| lab[x]);
+                    if seen.contains(&code) {
+                        continue;
+                    }
+                    if let Some(k) = make_sym(format!("kink:{}:e{e}:v{v}:{oname}:start{start}", s.name.splitn(2, ':').nth(1).unwrap_or(&s.name)), code.clone()) {
+                        if k.name.starts_with("reflection") || k.name.starts_with("both") {
+                            seen.insert(code);
+                            out.push(k);
+                        }
+                    }
+                }
+            }
+        }
+    }
+}
+
 fn table_code(name: &str) -> Vec<[usize; 4]> {
     pd_of(InvLink::load(name).unwrap().link())
 }
@@ -298,6 +355,15 @@ fn main() {
         }
     }
     run.add("table_entries", inputs.len() as u64);
+    {
+        let mut kinked = vec![];
+        let mut seen = std::collections::BTreeSet::new();
+        for s in inputs.iter().filter(|s| s.d.n <= if th { 6 } else { 4 }) {
+            kinked_inputs(s, &mut kinked, &mut seen);
+        }
+        run.add("kinked_inputs", kinked.len() as u64);
+        inputs.extend(kinked);
+    }
     // generated: every 1-component planar diagram, renumbered along the knot from every start
     let nmax = if th { 4 } else { 3 };
     for (name, d) in planar_family(nmax) {
